@@ -105,6 +105,12 @@ InterpreterEnv::InterpreterEnv(std::vector<valtype>& stack_in, const CScript& sc
         operational = false;
         return;
     }
+    // BIP342: tapscript enforces the stack size limit on the initial stack, before anything is executed
+    if (sigversion == SigVersion::TAPSCRIPT && stack_in.size() > MAX_STACK_SIZE) {
+        set_error(serror, SCRIPT_ERR_STACK_SIZE);
+        operational = false;
+        return;
+    }
     nOpCount = 0;
     fRequireMinimal = (flags & SCRIPT_VERIFY_MINIMALDATA) != 0;
     // figure out if p2sh (a scriptPubKey template: a witness script or tapscript leaf of this shape is an ordinary script)
